@@ -81,6 +81,13 @@ def run(ctx):
     for i in range(20 if ctx.tier == "quick" else 100):
         c = G.healthy_case(rng, 20000 + i, ["netsim"], odd=True)
         cases.append(c)
+    # lost wake-up window: a data reader that found no state for its chunk's file is held between its look-up and its wait registration
+    # while the control reader handles FileBegin (chunk frames travel on other streams than FileBegin and may arrive first)
+    for i, (nf, cpf, st, cn) in enumerate([(1, 1, 1, 1), (1, 3, 2, 1), (3, 2, 4, 1), (2, 2, 2, 2), (5, 1, 8, 4), (4, 5, 4, 2)] + ([(rng.range(1, 5), rng.range(1, 5), rng.choice(streams_opts), rng.choice(conns_opts)) for _ in range(12)] if full else [])):
+        for tr in ("netsim", "quic") if (full or i < 3) else ("netsim",):
+            files = [{"p": f"w{j}", "n": max(1, cpf * 64 - (j % 2)), "s": 1234 * i + j} for j in range(nf)]
+            cases.append({"name": f"wakeup-{nf}f-{cpf}c-{st}s-{cn}n-{tr}", "files": files, "chunk": 64, "streams": st, "conns": cn, "transport": tr, "noroot": True,
+                          "resume": i % 2 == 1, "timeout_ms": 8000, "delays": {"recv.file_begin.enter": 40, "recv.reader.before_wait": 150}})
     rc, results = G.run_xfer(ctx, exe, "grid", cases, timeout=1700)
     if rc != 0 or len(results) != len(cases):
         ctx.oblige("harness:run", False, f"rc={rc} results={len(results)}/{len(cases)} {ctx.harness_stderr[-300:]}")
@@ -102,7 +109,7 @@ def run(ctx):
     ctx.coverage.update({
         "evaluations": len(bcases) + len(ncases) + len(cases), "distinct_nontrivial": completed,
         "rule": "grid files {0,1,2,5} x chunks-per-file {0,1,2,5} x streams {1,2,4,8} x connections {1,2,4} x resume {off,on,on-after-partial} over netsim with QUIC stream-visibility semantics "
-                "(quick: one third sampled; thorough: complete), seeded points of the same grid over real loopback QUIC, trees with unusual legal names; every run must end with both endpoints nil inside the watchdog. "
+                "(quick: one third sampled; thorough: complete), seeded points of the same grid over real loopback QUIC, trees with unusual legal names; the same with FileBegin handling delayed by 40 ms (chunk frames overtake it) and every data reader held for 150 ms between its state look-up and its wait for FileBegin (lost wake-up window); every run must end with both endpoints nil inside the watchdog. "
                 "budget arithmetic exhaustive on files<12, requested<12, connections<6 plus random; validateRelPath on legal odd names. non-trivial = completed end-to-end runs",
         "samples": [cases[0]["name"], cases[len(cases) // 2]["name"], bcases[17], ncases[0]],
         "completed": completed, "slower_than_3s": slow, "disagreements_model_vs_impl": len(d0) + len(d1),
